@@ -31,6 +31,9 @@ def build_case(rng: random.Random) -> dict:
                            'textblock_forked']),
         'nested': rng.random() < 0.15,
     }
+    if case['via'] == 'textblock_given_once':
+        case['repeat'] = max(case['repeat'], 2)
+        case['copied'] = rng.choice([None, 'deepcopy', 'pickle'])
     if case['via'] in ('to_list', 'to_str') and rng.random() < 0.25 and case['lines']:
         # the indenter itself takes any strings: a line may hold a carriage return, a form feed,
         # a Unicode line separator - characters str.splitlines() would cut at
@@ -170,7 +173,16 @@ def eval_case(case: dict) -> dict:
                     ret = tb.set_indentor(ind).indent()
                 elif case['via'] == 'textblock_given_once' and step > 0:
                     # indent(options) specifies the options "in one sweep": they are the
-                    # block's current options from then on
+                    # block's current options from then on - also for a deep copy of the
+                    # block and for one that went through pickle
+                    if case.get('copied') == 'deepcopy':
+                        import copy  # pylint: disable=import-outside-toplevel
+                        tb = copy.deepcopy(tb)
+                        cnt['blocks_deep_copied_between_indents'] = 1
+                    elif case.get('copied') == 'pickle':
+                        import pickle  # pylint: disable=import-outside-toplevel
+                        tb = pickle.loads(pickle.dumps(tb))
+                        cnt['blocks_pickled_between_indents'] = 1
                     ret = tb.indent()
                 else:
                     ret = tb.indent(ind)
@@ -218,7 +230,8 @@ def main(tier: str) -> int:
     run.require('lines_judged', 'to_str_compared', 'headers_checked', 'glyph_wider_than_indent',
                 'mode_none_spaces', 'mode_all_spaces', 'mode_first_spaces', 'mode_none_tab',
                 'mode_all_tab', 'mode_first_tab', 'width_from_overridden_module_default',
-                'lines_with_inner_line_boundaries', 'forked_copies_indented')
+                'lines_with_inner_line_boundaries', 'forked_copies_indented',
+                'blocks_deep_copied_between_indents', 'blocks_pickled_between_indents')
     for _item, res in run.pmap(_worker, [(run.seed, i, per) for i in range(total // per)]):
         if 'harness_error' in res:
             run.mark_inconclusive('harness error: ' + res['harness_error'][-300:])
